@@ -30,6 +30,7 @@ def sortStr (l : List String) : List String := l.foldl (fun acc x => insertStr x
 def step (s : St) (toks : List String) : St × String :=
   match toks with
   | ["case", _, _] => ({}, "ok")
+  | ["gen", _, _, _] => (s, "ok")   -- the generated operations of the case (for replays)
   | ["step", ids, labs] =>
     let want := csvNat ids
     let cmds : List Cmd :=
